@@ -4,7 +4,9 @@ import (
 	"encoding/json"
 	"fmt"
 	"os"
+	"runtime/pprof"
 	"strconv"
+	"time"
 
 	"verif/mc/fw"
 	_ "verif/mc/harness"
@@ -34,7 +36,16 @@ func main() {
 		// run one unit in-process and print its result (debugging)
 		c := fw.Get(os.Args[2])
 		diag := fw.Silence()
-		r := c.Run(os.Args[4], &fw.Env{Tier: os.Args[3], Thorough: os.Args[3] == "thorough"})
+		if pf := os.Getenv("VERIF_PROF"); pf != "" {
+			f, _ := os.Create(pf)
+			pprof.StartCPUProfile(f)
+			defer pprof.StopCPUProfile()
+		}
+		env := &fw.Env{Tier: os.Args[3], Thorough: os.Args[3] == "thorough"}
+		if d, err := strconv.Atoi(os.Getenv("VERIF_ONE_S")); err == nil {
+			env.Deadline = time.Now().Add(time.Duration(d) * time.Second)
+		}
+		r := c.Run(os.Args[4], env)
 		b, _ := json.MarshalIndent(r, "", " ")
 		fmt.Fprintln(diag, string(b))
 	case "replay":
